@@ -13,13 +13,32 @@ type graph struct {
 	IExt   [][]int  `json:"iext"`   // per interface: earlier interfaces it extends
 	Impl   [][]bool `json:"impl"`   // [class][interface]
 	Def    []bool   `json:"def"`    // class defines zm() and static zs()
+	// AnonK-1 = index of the class that is not declared by name but written as an anonymous class
+	// expression (`new class(..) extends P implements I.. { .. }`), 0 = none. Always a leaf: nothing
+	// can name it, so nothing extends it and no type refers to it.
+	AnonK int `json:"anon_k,omitempty"`
+	// NS: the whole program lives in `namespace Vq\Sub;` (type references alternate between the
+	// unqualified and the fully qualified spelling, strings are fully qualified)
+	NS int `json:"ns,omitempty"` // 0 none, 1 = type references unqualified, 2 = fully qualified at the check sites
+}
+
+func (g *graph) anon() int { return g.AnonK - 1 }
+
+// isLeaf: no class extends c
+func (g *graph) isLeaf(c int) bool {
+	for _, p := range g.Parent {
+		if p == c {
+			return false
+		}
+	}
+	return true
 }
 
 func (g *graph) nc() int { return len(g.Parent) }
 func (g *graph) ni() int { return len(g.IExt) }
 
 func (g *graph) clone() *graph {
-	h := &graph{Parent: append([]int{}, g.Parent...), Def: append([]bool{}, g.Def...)}
+	h := &graph{Parent: append([]int{}, g.Parent...), Def: append([]bool{}, g.Def...), AnonK: g.AnonK, NS: g.NS}
 	for _, e := range g.IExt {
 		h.IExt = append(h.IExt, append([]int{}, e...))
 	}
@@ -93,6 +112,9 @@ type tref struct {
 func (g *graph) types() []tref {
 	var t []tref
 	for c := 0; c < g.nc(); c++ {
+		if c == g.anon() {
+			continue // an anonymous class cannot be named as a type
+		}
 		t = append(t, tref{false, c})
 	}
 	for i := 0; i < g.ni(); i++ {
@@ -137,6 +159,10 @@ type cellSpec struct {
 	T    *tref  `json:"type,omitempty"`
 	K    int    `json:"k"` // class whose helper is used (dispatch cells), -1 otherwise
 	Pass int    `json:"pass,omitempty"` // dispatch cells run twice per script: classes ascending (0), then descending (1)
+	// Mk: how the object is made when its class is the anonymous one: 0 = by the factory function
+	// mk_anon() (one class expression, full member set, evaluated once per cell), 1 = the class
+	// expression written out at the cell's own site with only the members this cell needs
+	Mk int `json:"mk,omitempty"`
 }
 
 func (c cellSpec) id(g *graph) string {
@@ -154,7 +180,36 @@ func (c cellSpec) id(g *graph) string {
 	if c.Pass > 0 {
 		s += fmt.Sprintf("/p%d", c.Pass)
 	}
+	if c.Mk > 0 {
+		s += fmt.Sprintf("/m%d", c.Mk)
+	}
 	return s
+}
+
+// needsClassName: constructs that spell the object's class (`Obj::helper()`)
+func needsClassName(cons string) bool {
+	return cons == "self-static-ctx" || cons == "static-static-ctx" || cons == "static-chain"
+}
+
+// valid: can the cell be written down at all on g?
+func (g *graph) valid(c cellSpec) bool {
+	a := g.anon()
+	if a >= 0 && !g.isLeaf(a) {
+		return false
+	}
+	if c.T != nil && !c.T.Iface && c.T.Idx == a {
+		return false
+	}
+	if c.Obj == a && a >= 0 && needsClassName(c.Cons) {
+		return false
+	}
+	if c.Mk != 0 && c.Obj != a {
+		return false
+	}
+	if c.K >= 0 && (!g.isSubclass(c.Obj, c.K) || (c.Cons == "parent" && g.Parent[c.K] < 0)) {
+		return false
+	}
+	return true
 }
 
 // subtype constructs (need obj, type); thrown=true ones exist only in the throwable variant
@@ -167,6 +222,8 @@ var subtypeCons = []struct {
 	{"instanceof-var", false},  // $o instanceof $t, $t a string
 	{"param", false},           // function f(T $x) called with $o
 	{"param-this", false},      // f($this)
+	{"param-method", false},    // $chk->m(T $x): the same type on an instance method's parameter
+	{"param-closure", false},   // $cl = function (T $x) {..}: on a closure's parameter
 	{"catch", true},            // throw $o; catch (T $e)
 	{"instanceof-caught", true}, // $e instanceof T on the caught value
 	{"param-caught", true},     // f($e) on the caught value
@@ -193,36 +250,59 @@ var dispatchCons = []struct {
 
 func (g *graph) cells(throwable bool) []cellSpec {
 	var out []cellSpec
-	for o := 0; o < g.nc(); o++ {
-		for _, sc := range subtypeCons {
-			if sc.thrown && !throwable {
-				continue
-			}
-			for _, t := range g.types() {
-				tt := t
-				out = append(out, cellSpec{Cons: sc.name, Obj: o, T: &tt, K: -1})
-			}
+	a := g.anon()
+	onAnonChain := map[int]bool{}
+	if a >= 0 {
+		for _, x := range g.chain(a) {
+			onAnonChain[x] = true
 		}
-		for _, dc := range dispatchCons {
-			if dc.thrown && !throwable {
-				continue
-			}
-			if !dc.helper {
-				out = append(out, cellSpec{Cons: dc.name, Obj: o, K: -1})
-				continue
-			}
-			for _, k := range g.chain(o) {
-				if dc.name == "parent" && g.Parent[k] < 0 {
+	}
+	for o := 0; o < g.nc(); o++ {
+		// a graph with an anonymous class asks about the anonymous object (both ways of making it)
+		// and, for dispatch, about its named ancestors too (they share call sites with it); the
+		// rest of such a graph is the graph without that class, which is enumerated by itself
+		if a >= 0 && !onAnonChain[o] {
+			continue
+		}
+		mks := []int{0}
+		if o == a {
+			mks = []int{0, 1}
+		}
+		for _, mk := range mks {
+			for _, sc := range subtypeCons {
+				if (sc.thrown && !throwable) || (a >= 0 && o != a) {
 					continue
 				}
-				out = append(out, cellSpec{Cons: dc.name, Obj: o, K: k})
+				for _, t := range g.types() {
+					tt := t
+					out = append(out, cellSpec{Cons: sc.name, Obj: o, T: &tt, K: -1, Mk: mk})
+				}
+			}
+			for _, dc := range dispatchCons {
+				if dc.thrown && !throwable {
+					continue
+				}
+				if o == a && needsClassName(dc.name) {
+					continue
+				}
+				if !dc.helper {
+					out = append(out, cellSpec{Cons: dc.name, Obj: o, K: -1, Mk: mk})
+					continue
+				}
+				for _, k := range g.chain(o) {
+					if dc.name == "parent" && g.Parent[k] < 0 {
+						continue
+					}
+					out = append(out, cellSpec{Cons: dc.name, Obj: o, K: k, Mk: mk})
+				}
 			}
 		}
 	}
 	// second pass: every dispatch probe again, classes in descending order, in the same script -
 	// the helper bodies / f_call are single source locations shared by all objects of the graph
+	// (the class expressions written out at their own site are not shared: asked once)
 	for i := len(out) - 1; i >= 0; i-- {
-		if out[i].T == nil {
+		if out[i].T == nil && out[i].Mk == 0 {
 			c := out[i]
 			c.Pass = 1
 			out = append(out, c)
@@ -280,8 +360,124 @@ func (g *graph) expect(c cellSpec, n names) string {
 
 // ---- program generation -------------------------------------------------------------------------------
 
+const nsName = `Vq\Sub`
+
+// tname: how a check site (instanceof, parameter type, catch) spells type t
+func (g *graph) tname(n names, t tref) string {
+	if g.NS == 2 {
+		return `\` + nsName + `\` + n.t(t)
+	}
+	return n.t(t)
+}
+
+// members of class c as (kind, source line); kinds: def hp hs hl hss hsl hm hc hci ht is:<T> pass:<T>
+func (g *graph) members(n names, c int) [][2]string {
+	var m [][2]string
+	add := func(kind, f string, a ...any) { m = append(m, [2]string{kind, fmt.Sprintf(f, a...)}) }
+	if g.Def[c] {
+		// every definition continues into the nearest ancestor definition, so a marker shows
+		// the whole parent:: chain
+		if g.Parent[c] >= 0 && g.definer(g.Parent[c]) >= 0 {
+			add("def", "  public function zm() { return \"%s::zm>\" . parent::zm(); }\n", n.c(c))
+		} else {
+			add("def", "  public function zm() { return \"%s::zm\"; }\n", n.c(c))
+		}
+		add("def", "  public static function zs() { return \"%s::zs\"; }\n", n.c(c))
+	}
+	if g.Parent[c] >= 0 {
+		add("hp", "  public function hp_%s() { return parent::zm(); }\n", n.c(c))
+	}
+	add("hs", "  public function hs_%s() { return self::zs(); }\n", n.c(c))
+	add("hl", "  public function hl_%s() { return static::zs(); }\n", n.c(c))
+	add("hss", "  public static function hss_%s() { return self::zs(); }\n", n.c(c))
+	add("hsl", "  public static function hsl_%s() { return static::zs(); }\n", n.c(c))
+	add("hm", "  public static function hm_%s() { return \"L<\" . static::zs() . \">\"; }\n", n.c(c))
+	add("hc", "  public static function hc_%s() { return static::hm_%s(); }\n", n.c(c), n.c(c))
+	add("hci", "  public function hci_%s() { return static::hm_%s(); }\n", n.c(c), n.c(c))
+	if g.Parent[c] < 0 {
+		add("ht", "  public function ht() { return $this->zm(); }\n")
+		for _, t := range g.types() {
+			add("is:"+n.t(t), "  public function is_%s() { return ($this instanceof %s) ? \"y\" : \"n\"; }\n", n.t(t), g.tname(n, t))
+			add("pass:"+n.t(t), "  public function pass_%s() { return acc_%s($this); }\n", n.t(t), n.t(t))
+		}
+	}
+	return m
+}
+
+// header: ` extends P implements I, J` of class c
+func (g *graph) header(n names, c int, throwable bool) string {
+	s := ""
+	if g.Parent[c] >= 0 {
+		s += " extends " + n.c(g.Parent[c])
+	} else if throwable {
+		if g.NS > 0 {
+			s += ` extends \Exception`
+		} else {
+			s += " extends Exception"
+		}
+	}
+	var im []string
+	for i, on := range g.Impl[c] {
+		if on {
+			im = append(im, n.i(i))
+		}
+	}
+	if len(im) > 0 {
+		s += " implements " + strings.Join(im, ", ")
+	}
+	return s
+}
+
+// anonExpr: the anonymous class expression; need == nil keeps every member
+func (g *graph) anonExpr(n names, throwable bool, need map[string]bool) string {
+	a := g.anon()
+	var sb strings.Builder
+	sb.WriteString("new class")
+	if throwable {
+		sb.WriteString("(\"msg\")")
+	}
+	sb.WriteString(g.header(n, a, throwable) + " {\n")
+	for _, m := range g.members(n, a) {
+		if need == nil || m[0] == "def" || need[m[0]] {
+			sb.WriteString(m[1])
+		}
+	}
+	sb.WriteString("}")
+	return sb.String()
+}
+
+// needOf: the members of the anonymous class that cell c uses (beyond zm/zs)
+func (g *graph) needOf(n names, c cellSpec) map[string]bool {
+	need := map[string]bool{}
+	switch c.Cons {
+	case "instanceof-this":
+		need["is:"+n.t(*c.T)] = true
+	case "param-this":
+		need["pass:"+n.t(*c.T)] = true
+	case "call-this":
+		need["ht"] = true
+	case "parent":
+		need["hp"] = true
+	case "self":
+		need["hs"] = true
+	case "static":
+		need["hl"] = true
+	case "static-chain-inst":
+		need["hci"], need["hm"] = true, true
+	}
+	if c.K >= 0 && c.K != g.anon() {
+		return map[string]bool{} // the helper is inherited from a named class
+	}
+	return need
+}
+
 func (g *graph) source(n names, throwable bool, cells []cellSpec) string {
 	var sb strings.Builder
+	thr := "Throwable"
+	if g.NS > 0 {
+		sb.WriteString("namespace " + nsName + ";\n")
+		thr = `\Throwable`
+	}
 	for i := 0; i < g.ni(); i++ {
 		sb.WriteString("interface " + n.i(i))
 		if len(g.IExt[i]) > 0 {
@@ -293,92 +489,93 @@ func (g *graph) source(n names, throwable bool, cells []cellSpec) string {
 		}
 		sb.WriteString(" {}\n")
 	}
-	for _, t := range g.types() {
-		fmt.Fprintf(&sb, "function acc_%s(%s $x) { return \"y\"; }\n", n.t(t), n.t(t))
+	sites := func() {
+		for _, t := range g.types() {
+			fmt.Fprintf(&sb, "function acc_%s(%s $x) { return \"y\"; }\n", n.t(t), g.tname(n, t))
+		}
+		// the same parameter types on the other kinds of callable: instance method, closure
+		sb.WriteString("class Chk {\n")
+		for _, t := range g.types() {
+			fmt.Fprintf(&sb, "  public function m_%s(%s $x) { return \"y\"; }\n", n.t(t), g.tname(n, t))
+		}
+		sb.WriteString("}\n$chk = new Chk();\n")
+		for _, t := range g.types() {
+			fmt.Fprintf(&sb, "$cl_%s = function (%s $x) { return \"y\"; };\n", n.t(t), g.tname(n, t))
+		}
+	}
+	// the typed functions come before the classes they name (forward references); inside a
+	// namespace origami resolves an unqualified forward reference to the global name (seen, not a
+	// hierarchy matter: see notes), so there they follow the declarations
+	if g.NS == 0 {
+		sites()
 	}
 	for c := 0; c < g.nc(); c++ {
-		sb.WriteString("class " + n.c(c))
-		if g.Parent[c] >= 0 {
-			sb.WriteString(" extends " + n.c(g.Parent[c]))
-		} else if throwable {
-			sb.WriteString(" extends Exception")
+		if c == g.anon() {
+			continue
 		}
-		var im []string
-		for i, on := range g.Impl[c] {
-			if on {
-				im = append(im, n.i(i))
-			}
-		}
-		if len(im) > 0 {
-			sb.WriteString(" implements " + strings.Join(im, ", "))
-		}
-		sb.WriteString(" {\n")
-		if g.Def[c] {
-			// every definition continues into the nearest ancestor definition, so a marker shows
-			// the whole parent:: chain
-			if g.Parent[c] >= 0 && g.definer(g.Parent[c]) >= 0 {
-				fmt.Fprintf(&sb, "  public function zm() { return \"%s::zm>\" . parent::zm(); }\n", n.c(c))
-			} else {
-				fmt.Fprintf(&sb, "  public function zm() { return \"%s::zm\"; }\n", n.c(c))
-			}
-			fmt.Fprintf(&sb, "  public static function zs() { return \"%s::zs\"; }\n", n.c(c))
-		}
-		if g.Parent[c] >= 0 {
-			fmt.Fprintf(&sb, "  public function hp_%s() { return parent::zm(); }\n", n.c(c))
-		}
-		fmt.Fprintf(&sb, "  public function hs_%s() { return self::zs(); }\n", n.c(c))
-		fmt.Fprintf(&sb, "  public function hl_%s() { return static::zs(); }\n", n.c(c))
-		fmt.Fprintf(&sb, "  public static function hss_%s() { return self::zs(); }\n", n.c(c))
-		fmt.Fprintf(&sb, "  public static function hsl_%s() { return static::zs(); }\n", n.c(c))
-		fmt.Fprintf(&sb, "  public static function hm_%s() { return \"L<\" . static::zs() . \">\"; }\n", n.c(c))
-		fmt.Fprintf(&sb, "  public static function hc_%s() { return static::hm_%s(); }\n", n.c(c), n.c(c))
-		fmt.Fprintf(&sb, "  public function hci_%s() { return static::hm_%s(); }\n", n.c(c), n.c(c))
-		if g.Parent[c] < 0 {
-			sb.WriteString("  public function ht() { return $this->zm(); }\n")
-			for _, t := range g.types() {
-				fmt.Fprintf(&sb, "  public function is_%s() { return ($this instanceof %s) ? \"y\" : \"n\"; }\n", n.t(t), n.t(t))
-				fmt.Fprintf(&sb, "  public function pass_%s() { return acc_%s($this); }\n", n.t(t), n.t(t))
-			}
+		sb.WriteString("class " + n.c(c) + g.header(n, c, throwable) + " {\n")
+		for _, m := range g.members(n, c) {
+			sb.WriteString(m[1])
 		}
 		sb.WriteString("}\n")
 	}
+	if g.NS != 0 {
+		sites()
+	}
+	if g.anon() >= 0 {
+		sb.WriteString("function mk_anon() { return " + g.anonExpr(n, throwable, nil) + "; }\n")
+	}
 	sb.WriteString("function f_call($x) { return $x->zm(); }\n")
-	mk := func(c int) string {
-		if throwable {
-			return fmt.Sprintf("new %s(\"msg\")", n.c(c))
+	mk := func(c cellSpec) string {
+		if c.Obj == g.anon() {
+			if c.Mk == 1 {
+				return g.anonExpr(n, throwable, g.needOf(n, c))
+			}
+			return "mk_anon()"
 		}
-		return fmt.Sprintf("new %s()", n.c(c))
+		if throwable {
+			return fmt.Sprintf("new %s(\"msg\")", n.c(c.Obj))
+		}
+		return fmt.Sprintf("new %s()", n.c(c.Obj))
 	}
 	for _, c := range cells {
-		o := mk(c.Obj)
+		o := mk(c)
 		var body string // leaves result in $r; "denied" params are reported by the catch
-		tn := ""
+		tn, fn := "", ""
 		if c.T != nil {
-			tn = n.t(*c.T)
+			tn, fn = g.tname(n, *c.T), n.t(*c.T)
 		}
 		switch c.Cons {
 		case "instanceof":
 			body = fmt.Sprintf("$o = %s; $r = ($o instanceof %s) ? \"y\" : \"n\";", o, tn)
 		case "instanceof-this":
-			body = fmt.Sprintf("$o = %s; $r = $o->is_%s();", o, tn)
+			body = fmt.Sprintf("$o = %s; $r = $o->is_%s();", o, fn)
 		case "instanceof-var":
-			body = fmt.Sprintf("$o = %s; $t = \"%s\"; $r = ($o instanceof $t) ? \"y\" : \"n\";", o, tn)
+			q := fn
+			if g.NS > 0 {
+				q = strings.ReplaceAll(nsName, `\`, `\\`) + `\\` + fn
+			}
+			body = fmt.Sprintf("$o = %s; $t = \"%s\"; $r = ($o instanceof $t) ? \"y\" : \"n\";", o, q)
 		case "param":
-			body = fmt.Sprintf("$o = %s; $r = \"n\"; try { $r = acc_%s($o); } catch (Throwable $te) { $r = \"n\"; }", o, tn)
+			body = fmt.Sprintf("$o = %s; $r = \"n\"; try { $r = acc_%s($o); } catch (%s $te) { $r = \"n\"; }", o, fn, thr)
+		case "param-method":
+			body = fmt.Sprintf("$o = %s; $r = \"n\"; try { $r = $chk->m_%s($o); } catch (%s $te) { $r = \"n\"; }", o, fn, thr)
+		case "param-closure":
+			body = fmt.Sprintf("$o = %s; $r = \"n\"; try { $r = $cl_%s($o); } catch (%s $te) { $r = \"n\"; }", o, fn, thr)
 		case "param-this":
-			body = fmt.Sprintf("$o = %s; $r = \"n\"; try { $r = $o->pass_%s(); } catch (Throwable $te) { $r = \"n\"; }", o, tn)
+			body = fmt.Sprintf("$o = %s; $r = \"n\"; try { $r = $o->pass_%s(); } catch (%s $te) { $r = \"n\"; }", o, fn, thr)
 		case "catch":
-			body = fmt.Sprintf("$r = \"?\"; try { throw %s; } catch (%s $ce) { $r = \"y\"; } catch (Throwable $ce) { $r = \"n\"; }", o, tn)
+			body = fmt.Sprintf("$r = \"?\"; try { throw %s; } catch (%s $ce) { $r = \"y\"; } catch (%s $ce) { $r = \"n\"; }", o, tn, thr)
 		case "instanceof-caught":
-			body = fmt.Sprintf("$r = \"?\"; try { throw %s; } catch (Throwable $ce) { $r = ($ce instanceof %s) ? \"y\" : \"n\"; }", o, tn)
+			body = fmt.Sprintf("$r = \"?\"; try { throw %s; } catch (%s $ce) { $r = ($ce instanceof %s) ? \"y\" : \"n\"; }", o, thr, tn)
 		case "param-caught":
-			body = fmt.Sprintf("$r = \"?\"; try { throw %s; } catch (Throwable $ce) { try { $r = acc_%s($ce); } catch (Throwable $te) { $r = \"n\"; } }", o, tn)
+			body = fmt.Sprintf("$r = \"?\"; try { throw %s; } catch (%s $ce) { try { $r = acc_%s($ce); } catch (%s $te) { $r = \"n\"; } }", o, thr, fn, thr)
 		case "call":
 			body = fmt.Sprintf("$o = %s; $r = $o->zm();", o)
 		case "call-this":
 			body = fmt.Sprintf("$o = %s; $r = $o->ht();", o)
 		case "call-caught":
-			body = fmt.Sprintf("$r = \"?\"; try { throw %s; } catch (Throwable $ce) { $r = $ce->zm(); }", o)
+			body = fmt.Sprintf("$r = \"?\"; try { throw %s; } catch (%s $ce) { $r = $ce->zm(); }", o, thr)
 		case "parent":
 			body = fmt.Sprintf("$o = %s; $r = $o->hp_%s();", o, n.c(c.K))
 		case "self":
@@ -396,7 +593,7 @@ func (g *graph) source(n names, throwable bool, cells []cellSpec) string {
 		case "static-chain-inst":
 			body = fmt.Sprintf("$o = %s; $r = $o->hci_%s();", o, n.c(c.K))
 		}
-		fmt.Fprintf(&sb, "echo \"@@%s@@\"; try { %s echo $r; } catch (Throwable $e) { echo \"E|\", get_class($e), \"|\", $e->getMessage(); }\n", c.id(g), body)
+		fmt.Fprintf(&sb, "echo \"@@%s@@\"; try { %s echo $r; } catch (%s $e) { echo \"E|\", get_class($e), \"|\", $e->getMessage(); }\n", c.id(g), body, thr)
 	}
 	sb.WriteString("echo \"@@END@@\";\n")
 	return sb.String()
@@ -410,6 +607,9 @@ func (g *graph) describe(c cellSpec) string {
 	var cl []string
 	for i := 0; i < g.nc(); i++ {
 		s := n.c(i)
+		if i == g.anon() {
+			s += "(anonymous)"
+		}
 		if g.Parent[i] >= 0 {
 			s += "<" + n.c(g.Parent[i])
 		}
@@ -443,7 +643,15 @@ func (g *graph) describe(c cellSpec) string {
 	if len(il) > 0 {
 		d += " {" + strings.Join(il, "; ") + "}"
 	}
+	if g.NS == 1 {
+		d += " in-namespace"
+	} else if g.NS == 2 {
+		d += " in-namespace(qualified refs)"
+	}
 	d += " obj=" + n.c(c.Obj)
+	if c.Mk == 1 {
+		d += "(class expression at the site)"
+	}
 	if c.T != nil {
 		d += " type=" + n.t(*c.T)
 	}
@@ -477,7 +685,10 @@ func perms(n int) [][]int {
 // relabel applies class permutation pc (old -> new) and interface permutation pi; returns nil
 // when the result violates "parents / extended interfaces come first".
 func (g *graph) relabel(pc, pi []int) *graph {
-	h := &graph{Parent: make([]int, g.nc()), Def: make([]bool, g.nc()), IExt: make([][]int, g.ni()), Impl: make([][]bool, g.nc())}
+	h := &graph{Parent: make([]int, g.nc()), Def: make([]bool, g.nc()), IExt: make([][]int, g.ni()), Impl: make([][]bool, g.nc()), NS: g.NS}
+	if g.anon() >= 0 {
+		h.AnonK = pc[g.anon()] + 1
+	}
 	for c := 0; c < g.nc(); c++ {
 		nc := pc[c]
 		if g.Parent[c] >= 0 {
